@@ -562,9 +562,12 @@ class _Canon(ast.NodeTransformer):
                                 if isinstance(x.func, ast.Attribute) and isinstance(x.func.value, ast.Name) and x.func.value.id == owner and x.func.attr not in ("append", "extend", "index", "count", "copy"):
                                     ok = False
                                 if any(isinstance(a, ast.Name) and a.id == owner for a in list(x.args) + [k.value for k in x.keywords]):
-                                    ok = False
-                            if isinstance(x, (ast.For, ast.While)) and any(isinstance(y, ast.Name) and y.id == name for y in ast.walk(x)):
-                                ok = False
+                                    # handing the list to something that only reads it (`xs.index(pair)`, `out.extend(pair)`, `len(pair)`) is fine
+                                    reader = (isinstance(x.func, ast.Attribute) and x.func.attr in ("index", "append", "extend", "count", "remove", "__contains__")
+                                              and not (isinstance(x.func.value, ast.Name) and x.func.value.id == owner)) \
+                                        or (isinstance(x.func, ast.Name) and x.func.id in ("len", "list", "tuple", "enumerate", "sorted", "min", "max", "sum", "any", "all", "iter"))
+                                    if not reader:
+                                        ok = False
                         j += 1
                     if ok and seen == total:
                         item = st.value
@@ -619,6 +622,8 @@ class _Canon(ast.NodeTransformer):
                     inside = {id(x) for y in rest for x in ast.walk(y)} | {id(st.targets[0])}
                     end = max((getattr(x, "lineno", 0) for y in rest for x in ast.walk(y)), default=st.lineno)
                     others = [x for x in ast.walk(fn) if isinstance(x, ast.Name) and x.id == name and id(x) not in inside]
+                    if any(not hasattr(x, "lineno") for x in others):
+                        continue
                     later = sorted(x.lineno for x in others if isinstance(x.ctx, ast.Store) and x.lineno > end)
                     ok = seen >= 1 and all(x.lineno > end and later and later[0] <= x.lineno for x in others) \
                         and not any(isinstance(x, ast.Name) and x.id == name and isinstance(x.ctx, (ast.Store, ast.Del)) for y in rest for x in ast.walk(y))
